@@ -215,6 +215,29 @@ func (c *SpecCtx) importedPkg(name string) *types.Package {
 	return nil
 }
 
+// namedType resolves "*pkgname.Type" or "pkgname.Type" through the packages visible from the
+// contract's package.
+func (c *SpecCtx) namedType(name string) types.Type {
+	ptr := strings.HasPrefix(name, "*")
+	bare := strings.TrimPrefix(name, "*")
+	if i := strings.LastIndex(bare, "."); i > 0 {
+		pn, tn := bare[:i], bare[i+1:]
+		if j := strings.LastIndex(pn, "/"); j >= 0 {
+			pn = pn[j+1:]
+		}
+		if p := c.importedPkg(pn); p != nil {
+			if obj, ok := p.Scope().Lookup(tn).(*types.TypeName); ok {
+				var t types.Type = obj.Type()
+				if ptr {
+					t = types.NewPointer(t)
+				}
+				return t
+			}
+		}
+	}
+	return nil
+}
+
 func (c *SpecCtx) deref(v *Val) *Val {
 	if v.K == kPtr {
 		return c.x.load(c.st, v.L, c.heap)
@@ -422,6 +445,16 @@ func (c *SpecCtx) binary(e *ast.BinaryExpr) *Val {
 		return boolV(Or(a.T, b.T))
 	}
 	a, b := c.eval(e.X), c.eval(e.Y)
+	// lastarg/lastret of a call that did not happen on this path is an arbitrary value of the
+	// sort it is compared with
+	retype := func(p, q *Val) *Val {
+		if p.K == kScalar && q.K == kScalar && p.T != nil && q.T != nil && p.T.sort != q.T.sort &&
+			(strings.HasPrefix(p.T.s, "noarg!") || strings.HasPrefix(p.T.s, "noret!")) {
+			return scalar(x.freshConst(c.st, "noarg", q.T.sort), q.Typ)
+		}
+		return p
+	}
+	a, b = retype(a, b), retype(b, a)
 	switch e.Op {
 	case token.EQL:
 		return boolV(x.valEq(c.st, a, b, nil))
@@ -688,8 +721,11 @@ func (c *SpecCtx) call(e *ast.CallExpr) *Val {
 			if t, ok := c.st.ghost[fmt.Sprintf("lastarg:%s:%d", name, i)]; ok {
 				return scalar(t, nil) // per-path record (scalar arguments)
 			}
-			if v, ok := x.lastArgs[fmt.Sprintf("%s:%d", name, i)]; ok {
-				return v
+			if _, happened := c.st.ghost["ncalls:"+name]; happened {
+				// a non-scalar argument of a call made on this path
+				if v, ok := x.lastArgs[fmt.Sprintf("%s:%d", name, i)]; ok {
+					return v
+				}
 			}
 			// no such call on this path: any value (specifications guard with ncalls)
 			return scalar(x.freshConst(c.st, "noarg", SInt), nil)
@@ -713,25 +749,26 @@ func (c *SpecCtx) call(e *ast.CallExpr) *Val {
 					return boolV(Eq(v.Tag, IntLit(id)))
 				}
 			}
-			// "*pkgname.Type" or "pkgname.Type": resolve through the packages visible from here
-			ptr := strings.HasPrefix(name, "*")
-			bare := strings.TrimPrefix(name, "*")
-			if i := strings.LastIndex(bare, "."); i > 0 {
-				pn, tn := bare[:i], bare[i+1:]
-				if j := strings.LastIndex(pn, "/"); j >= 0 {
-					pn = pn[j+1:]
-				}
-				if p := c.importedPkg(pn); p != nil {
-					if obj, ok := p.Scope().Lookup(tn).(*types.TypeName); ok {
-						var t types.Type = obj.Type()
-						if ptr {
-							t = types.NewPointer(t)
-						}
-						return boolV(Eq(v.Tag, IntLit(x.typeID(t))))
-					}
-				}
+			if t := c.namedType(name); t != nil {
+				return boolV(Eq(v.Tag, IntLit(x.typeID(t))))
 			}
 			c.fail("unknown type %q in typeis", name)
+		case "unbox":
+			// unbox(ifaceValue, "*pkg.Type"): the value held by the interface, read as that type
+			// (meaningful where typeis(ifaceValue, "*pkg.Type") holds)
+			v := c.eval(e.Args[0])
+			name := c.strArg(e.Args[1])
+			if v.K != kIface {
+				c.fail("unbox() of a value that is not an interface")
+			}
+			t := c.namedType(name)
+			if t == nil {
+				c.fail("unknown type %q in unbox", name)
+			}
+			if pt, ok := t.Underlying().(*types.Pointer); ok {
+				return x.ptrVal(v.Ptr, pt.Elem(), t)
+			}
+			return x.load(c.st, &Loc{Base: v.Ptr, Root: "B|" + typeKey(t), T: t}, c.heap)
 		case "fileByte", "fileSize":
 			// ghost file contents (see filemodels.go); the file is given by identity: ref(f) or f
 			fv := c.eval(e.Args[0])
@@ -775,6 +812,10 @@ func (c *SpecCtx) call(e *ast.CallExpr) *Val {
 			return boolV(StrPrefixOf(c.eval(e.Args[0]).T, c.eval(e.Args[1]).T))
 		case "strsuffix":
 			return boolV(StrSuffixOf(c.eval(e.Args[0]).T, c.eval(e.Args[1]).T))
+		case "strlastindex":
+			// strlastindex(s, sep): what strings.LastIndex(s, sep) returns (same function symbol
+			// and defining axioms as the program model)
+			return intV(x.strLastIndex(c.st, c.eval(e.Args[0]).T, c.eval(e.Args[1]).T))
 		case "strcontains":
 			return boolV(StrContains(c.eval(e.Args[0]).T, c.eval(e.Args[1]).T))
 		case "wrap":
